@@ -68,6 +68,15 @@ def build(rng, kind):
         freq = cf.SpectralFrame(axes_order=(1,), unit=(u.Hz,), name="freq", axes_names=("nu",))
         tm = cf.TemporalFrame(Time("2020-01-01T00:00:00"), unit=(u.s,), axes_order=(2,), name="time", axes_names=("t",))
         return wcs.WCS([(det, tr), (cf.CompositeFrame([spec, freq, tm], name="world"), None)]), 2, [0, 1]
+    if kind == "degenerate2":
+        # one pixel axis drives three world axes: two degenerate table axes in one group
+        tr = models.Mapping((0, 0, 0)) | ((models.Scale(0.5) | models.Shift(2.0)) & (models.Scale(-3.0) | models.Shift(900.0)) &
+                                          (models.Scale(10.0) | models.Shift(100.0)))
+        det = cf.CoordinateFrame(1, ("PIXEL",), (0,), unit=(u.pix,), name="detector")
+        spec = cf.SpectralFrame(axes_order=(0,), unit=(u.um,), name="wave", axes_names=("lambda",))
+        freq = cf.SpectralFrame(axes_order=(1,), unit=(u.Hz,), name="freq", axes_names=("nu",))
+        tm = cf.TemporalFrame(Time("2020-01-01T00:00:00"), unit=(u.s,), axes_order=(2,), name="time", axes_names=("t",))
+        return wcs.WCS([(det, tr), (cf.CompositeFrame([spec, freq, tm], name="world"), None)]), 1, [0]
     # cube: celestial pair (carried by the linear/SIP part in to_fits) + spectral axis
     sky = (models.Shift(-10) & models.Shift(-12) | models.Scale(1e-3) & models.Scale(1e-3) | models.Pix2Sky_TAN() |
            models.RotateNative2Celestial(30, 40, 180))
@@ -89,8 +98,8 @@ def run(ctx):
     rng = ctx.rng
     problems, terms, meta = [], [], []
     terms_pc, meta_pc = [], []
-    kinds = ["spec1", "spec1-curved", "spec-time", "coupled2", "cube", "degenerate"]
-    for ci in range(24 if ctx.quick else 300):
+    kinds = ["spec1", "spec1-curved", "spec-time", "coupled2", "cube", "degenerate", "degenerate2"]
+    for ci in range(28 if ctx.quick else 350):
         kind = kinds[ci % len(kinds)]
         w, n, tab_axes = build(rng, kind)
         box = []
@@ -161,7 +170,8 @@ def run(ctx):
                                  {"box": bb, "how": "w.to_fits_tab()[0]"}, "C11/tab-naxis-index" if int(naxis) == int(max(bb[0])) + 1 else None))
         # ---- PC row of every tabulated world axis vs TabAxes.v ---------------------------------------------------
         expect_axes = {"spec1": [(1, 1)], "spec1-curved": [(1, 1)], "spec-time": [(1, 1), (2, 2)], "coupled2": [(1, 1), (2, 2)],
-                       "cube": [(3, 3)], "degenerate": [(1, 1), (2, 3), (3, 2)]}[kind]       # (FITS world axis k1, image axis m1 it is read along)
+                       "cube": [(3, 3)], "degenerate": [(1, 1), (2, 3), (3, 2)],
+                       "degenerate2": [(1, 1), (2, 2), (3, 3)]}[kind]       # (FITS world axis k1, image axis m1 it is read along)
         if not any(k.startswith("CD") and "_" in k for k in hdr):
             nfits = max([int(k[5:]) for k in hdr if k.startswith("CTYPE") and k[5:].isdigit()] + [m for _, m in expect_axes])
             for k1, m1 in expect_axes:
